@@ -19,8 +19,10 @@ import (
 	"bufio"
 	"embed"
 	"fmt"
-	"go/scanner"
+	"go/ast"
+	"go/parser"
 	"go/token"
+	"strconv"
 	"os"
 	"path/filepath"
 	"runtime/debug"
@@ -42,10 +44,12 @@ func orig(f *ssa.Function) *ssa.Function {
 	return f
 }
 
-// The checker's own sources: every identifier-like word inside a string
-// literal of a rule is a name the rules may match calls against, so a function
-// with such a name is never expanded (expanding it would hide the very call a
-// rule looks for).
+// The checker's own sources, parsed at start-up: a name a rule may match calls
+// against is any word in a qualified piece of a string literal ("(*pkg.T).m",
+// "call:pkg.f == nil", ".ParseOp"), the function argument of c.Func/c.FuncOpt,
+// or a space-free element of a table literal. A function with such a name is
+// never expanded (expanding it would hide the very call a rule looks for).
+// Prose in diagnosis texts does not count.
 //
 //go:embed *.go
 var checkerSources embed.FS
@@ -57,39 +61,97 @@ func ruleWords() map[string]bool {
 		return ruleWordSet
 	}
 	ruleWordSet = map[string]bool{}
+	addWords := func(piece string) {
+		word := []rune{}
+		flush := func() {
+			if len(word) > 0 {
+				ruleWordSet[string(word)] = true
+				word = word[:0]
+			}
+		}
+		for _, r := range piece {
+			if r == '_' || unicode.IsLetter(r) || unicode.IsDigit(r) {
+				word = append(word, r)
+			} else {
+				flush()
+			}
+		}
+		flush()
+	}
+	// qualified pieces of any literal ("(*pkg.T).m", "call:pkg.f == nil", ".ParseOp")
+	addQualified := func(lit string) {
+		for _, pc := range strings.Fields(lit) {
+			pc = strings.TrimRight(pc, ".,:;!?)")
+			if strings.ContainsAny(pc, ".:#/") {
+				addWords(pc)
+			}
+		}
+	}
+	var lits func(e ast.Expr, f func(string))
+	lits = func(e ast.Expr, f func(string)) {
+		switch x := e.(type) {
+		case *ast.BasicLit:
+			if x.Kind == token.STRING {
+				if v, err := strconv.Unquote(x.Value); err == nil {
+					f(v)
+				}
+			}
+		case *ast.BinaryExpr:
+			lits(x.X, f)
+			lits(x.Y, f)
+		case *ast.ParenExpr:
+			lits(x.X, f)
+		}
+	}
 	ents, _ := checkerSources.ReadDir(".")
+	fset := token.NewFileSet()
 	for _, e := range ents {
 		src, err := checkerSources.ReadFile(e.Name())
 		if err != nil {
 			continue
 		}
-		var s scanner.Scanner
-		fset := token.NewFileSet()
-		s.Init(fset.AddFile(e.Name(), -1, len(src)), src, nil, 0)
-		for {
-			_, tok, lit := s.Scan()
-			if tok == token.EOF {
-				break
-			}
-			if tok != token.STRING {
-				continue
-			}
-			word := []rune{}
-			flush := func() {
-				if len(word) > 0 {
-					ruleWordSet[string(word)] = true
-					word = word[:0]
-				}
-			}
-			for _, r := range lit {
-				if r == '_' || unicode.IsLetter(r) || unicode.IsDigit(r) {
-					word = append(word, r)
-				} else {
-					flush()
-				}
-			}
-			flush()
+		file, err := parser.ParseFile(fset, e.Name(), src, 0)
+		if err != nil {
+			continue
 		}
+		ast.Inspect(file, func(n ast.Node) bool {
+			switch x := n.(type) {
+			case *ast.BasicLit:
+				if x.Kind == token.STRING {
+					if v, err := strconv.Unquote(x.Value); err == nil {
+						addQualified(v)
+					}
+				}
+			case *ast.CallExpr:
+				// c.Func(pkg, "name") / c.FuncOpt(pkg, "(*T).m"): bare names count
+				if sel, ok := x.Fun.(*ast.SelectorExpr); ok && (sel.Sel.Name == "Func" || sel.Sel.Name == "FuncOpt") && len(x.Args) == 2 {
+					lits(x.Args[1], addWords)
+				}
+			case *ast.CompositeLit:
+				// tables: []string{"AttachBlock", …}, map[string]…{"opAdd": …}
+				for _, el := range x.Elts {
+					if kv, ok := el.(*ast.KeyValueExpr); ok {
+						lits(kv.Key, func(v string) {
+							if !strings.Contains(v, " ") {
+								addWords(v)
+							}
+						})
+						lits(kv.Value, func(v string) {
+							if !strings.Contains(v, " ") {
+								addWords(v)
+							}
+						})
+					} else {
+						lits(el, func(v string) {
+							if !strings.Contains(v, " ") {
+								addWords(v)
+							}
+						})
+					}
+				}
+			}
+			return true
+		})
 	}
 	return ruleWordSet
 }
@@ -165,9 +227,27 @@ func (c *Ctx) viewOf(f *ssa.Function) *ssa.Function {
 	default:
 		return f
 	}
-	oracle := func(v ssa.Value, pred *ssa.BasicBlock) bool {
+	oracle := func(v ssa.Value, pred, succ *ssa.BasicBlock) bool {
 		if _, isConst := v.(*ssa.Const); isConst {
 			return false
+		}
+		// the edge itself may be the non-nil side of a test of v
+		if n := len(pred.Instrs); n > 0 {
+			if iff, ok := pred.Instrs[n-1].(*ssa.If); ok && len(pred.Succs) == 2 && pred.Succs[0] != pred.Succs[1] {
+				if bo, ok := iff.Cond.(*ssa.BinOp); ok {
+					var other ssa.Value
+					if bo.X == v {
+						other = bo.Y
+					} else if bo.Y == v {
+						other = bo.X
+					}
+					if other != nil && isNilConst(other) {
+						if (bo.Op == token.NEQ && pred.Succs[0] == succ) || (bo.Op == token.EQL && pred.Succs[1] == succ) {
+							return true
+						}
+					}
+				}
+			}
 		}
 		return !mayBeNilErr(v, pred, nil)
 	}
